@@ -2060,6 +2060,22 @@ class SextUnsignedContext(Base):
       s.q @= trunc(sext(s.a ^ s.b, 16) >> 4, 8)
 
 
+@design(lambda st, a, b, sel, en, reset: (None, {"o": bit((a + b) & M8, 3), "p": (((a + b) & M8) >> 2) & 0xF, "q": bit(a if en else b, 3)}))
+class SelectOnExpression(Base):
+  """a bit / part select applied to a parenthesised expression"""
+  def construct(s):
+    s.ports()
+    s.o = OutPort(Bits1)
+    s.p = OutPort(Bits4)
+    s.q = OutPort(Bits1)
+
+    @update
+    def up_soe():
+      s.o @= (s.a + s.b)[3]
+      s.p @= (s.a + s.b)[2:6]
+      s.q @= (s.a if s.en else s.b)[3]
+
+
 def sequences():
   """input sequences (lists of dicts): one long deterministic walk covering every (sel, en) with varied a, b; reset pulses inside"""
   A = (0, 1, 0x5A, 0xFF, 0x80, 0x0F, 0x37)
